@@ -181,18 +181,26 @@ namespace rkcommon {
     template <typename T>
     inline Optional<T> &Optional<T>::operator=(const Optional &other)
     {
-      default_construct_storage_if_needed();
-      value()  = other.value();
-      hasValue = true;
+      if (other.has_value()) {
+        default_construct_storage_if_needed();
+        value()  = other.value();
+        hasValue = true;
+      } else {
+        reset();
+      }
       return *this;
     }
 
     template <typename T>
     inline Optional<T> &Optional<T>::operator=(Optional &&other)
     {
-      default_construct_storage_if_needed();
-      value()  = std::move(other.value());
-      hasValue = true;
+      if (other.has_value()) {
+        default_construct_storage_if_needed();
+        value()  = std::move(other.value());
+        hasValue = true;
+      } else {
+        reset();
+      }
       return *this;
     }
 
@@ -219,9 +227,13 @@ namespace rkcommon {
                     " parameter of an instance being copied-from be"
                     " convertible to the type parameter of the destination"
                     " Optional<>.");
-      default_construct_storage_if_needed();
-      value()  = other.value();
-      hasValue = true;
+      if (other.has_value()) {
+        default_construct_storage_if_needed();
+        value()  = other.value();
+        hasValue = true;
+      } else {
+        reset();
+      }
       return *this;
     }
 
@@ -234,9 +246,13 @@ namespace rkcommon {
                     " parameter of an instance being moved-from be"
                     " convertible to the type parameter of the destination"
                     " Optional<>.");
-      default_construct_storage_if_needed();
-      value()  = other.value();
-      hasValue = true;
+      if (other.has_value()) {
+        default_construct_storage_if_needed();
+        value()  = other.value();
+        hasValue = true;
+      } else {
+        reset();
+      }
       return *this;
     }
 
